@@ -26,3 +26,36 @@ Proof. repeat split; reflexivity. Qed.
 Theorem letters_ok : letters = [65; 67; 71; 84].
 Proof. reflexivity. Qed.
 
+
+(* ---- CGR corner tables (two copies in the Rust) against the corners the property names ---- *)
+From KT Require Import Model.Rows.
+Definition corner_eqb (a b : option (bool * bool)) : bool :=
+  match a, b with
+  | None, None => true
+  | Some (x, y), Some (x', y') => Bool.eqb x x' && Bool.eqb y y'
+  | _, _ => false
+  end.
+Lemma corner_eqb_eq a b : corner_eqb a b = true -> a = b.
+Proof.
+  destruct a as [[x y]|], b as [[x' y']|]; cbn; try discriminate; try reflexivity.
+  intros H. apply andb_prop in H as [H1 H2]. apply Bool.eqb_prop in H1, H2. now subst.
+Qed.
+Definition corners_ok (t : list (N * (bool * bool))) : bool :=
+  forallb (fun b => corner_eqb (assoc b t) (corner_spec b)) (brange 0 256).
+Lemma corners_ok_spec t : corners_ok t = true -> forall b, b < 256 -> assoc b t = corner_spec b.
+Proof.
+  unfold corners_ok. intros H b Hb. apply corner_eqb_eq. rewrite forallb_forall in H. apply H.
+  unfold brange. apply in_map_iff. exists (N.to_nat b). split; [lia|]. apply in_seq. lia.
+Qed.
+(* the first byte on which a corner table deviates, for the failing-input search *)
+Definition corners_first_bad (t : list (N * (bool * bool))) : option N :=
+  find (fun b => negb (corner_eqb (assoc b t) (corner_spec b))) (brange 0 256).
+
+Theorem cgr_corners_cgr_ok : corners_ok cgr_corners_cgr = true.
+Proof. vm_compute. reflexivity. Qed.
+Theorem cgr_corners_oligocgr_ok : corners_ok cgr_corners_oligocgr = true.
+Proof. vm_compute. reflexivity. Qed.
+Theorem cgr_centres_ok : cgr_centre_is_half_cgr = true /\ cgr_centre_is_half_oligocgr = true.
+Proof. split; reflexivity. Qed.
+Theorem number_sizes_ok : number_size_oligo = 8 /\ number_size_coverage = 8.
+Proof. split; reflexivity. Qed.
